@@ -16,6 +16,22 @@ type chanState struct {
 	owned  bool
 	real   reflect.Value
 	label  string
+	// race detector: clock of the sender of every buffered value (aligned with buf), of all receivers so far, of the closer
+	bufVC   []vclock
+	recvVC  vclock
+	closeVC vclock
+}
+
+// exchangeVC: a rendezvous on an unbuffered channel orders both sides.
+func exchangeVC(a, b *thread) {
+	if a == nil || b == nil {
+		return
+	}
+	av := a.vc.copyVC()
+	a.vc = joinVC(a.vc, b.vc)
+	b.vc = joinVC(b.vc, av)
+	a.tick()
+	b.tick()
 }
 
 // MakeChan replaces make(chan T, n) in instrumented files.
@@ -155,15 +171,21 @@ func (r *runtimeState) doSendLocked(st *chanState, t *thread) {
 		return
 	}
 	if st.cap > 0 {
+		// (over-approximation towards more happens-before: every earlier receive orders this send)
+		acquireVC(t, st.recvVC)
 		st.buf = append(st.buf, o.val)
+		st.bufVC = append(st.bufVC, t.vc.copyVC())
+		t.tick()
 		return
 	}
 	p, ci := r.peerLocked(st, t, false)
 	if p == nil {
 		o.sendOnClosed = false
 		st.buf = append(st.buf, o.val) // cannot happen (enabledness), keep the value
+		st.bufVC = append(st.bufVC, nil)
 		return
 	}
+	exchangeVC(t, p)
 	r.completeRecvLocked(p, ci, o.val, true)
 }
 
@@ -183,15 +205,24 @@ func (r *runtimeState) doRecvLocked(st *chanState, t *thread) {
 	if len(st.buf) > 0 {
 		o.val, o.ok = st.buf[0], true
 		st.buf = st.buf[1:]
+		if len(st.bufVC) > 0 {
+			acquireVC(t, st.bufVC[0])
+			st.bufVC = st.bufVC[1:]
+		}
+		if st.owned {
+			releaseInto(t, &st.recvVC, false)
+		}
 		return
 	}
 	if st.closed {
 		o.val, o.ok = nil, false
+		acquireVC(t, st.closeVC)
 		return
 	}
 	if st.owned && st.cap == 0 {
 		p, ci := r.peerLocked(st, t, true)
 		if p != nil {
+			exchangeVC(t, p)
 			if ci == -2 {
 				o.val, o.ok = p.op.val, true
 			} else {
@@ -311,6 +342,7 @@ func Close[T any](ch chan<- T) {
 			panic("close of closed channel")
 		}
 		st.closed = true
+		releaseInto(rs.current, &st.closeVC, true)
 		rs.mu.Unlock()
 		defer func() { recover() }() // the real channel only serves as identity
 		close(ch)
@@ -498,5 +530,6 @@ func (r *runtimeState) fireTimerLocked(t *Timer) {
 	st := r.stateOfLocked(t.C)
 	if len(st.buf) < st.cap {
 		st.buf = append(st.buf, r.clock)
+		st.bufVC = append(st.bufVC, nil)
 	}
 }
